@@ -216,6 +216,12 @@ def pairsL : List (St × St) :=
 
 def regsL : St → List St := regsOfL pairsL
 
+/-! The sets / maps that are iterated are encoded in one `Nat` each (a bit, resp. a byte, per constructor
+index), so that the kernel computes every round to a literal (GMP arithmetic) instead of a lazy list. -/
+
+def bitOf (m : Nat) (s : St) : Bool := Nat.testBit m s.ctorIdx
+def byteOf (m : Nat) (s : St) : Nat := (m >>> (8 * s.ctorIdx)) % 256
+
 /-- A alone, for the NeedTop closure -/
 def checkA (nt : St → Bool) (st r : St) (leaf : List (Op St) × Cont St) : Bool :=
   let cp := nt st || nt r
@@ -224,29 +230,29 @@ def checkA (nt : St → Bool) (st r : St) (leaf : List (Op St) × Cont St) : Boo
   | some a => finA nt cp a leaf.2
 
 /-- NeedTop: the least set such that A holds — a state whose A-check fails is added -/
-def ntStep (N : List St) : List St :=
-  N ++ St.all.filter fun st =>
-    !N.contains st && !((regsL st).all fun r => (code st).leaves.all (checkA (fun s => N.contains s) st r))
+def ntStep (N : Nat) : Nat :=
+  St.all.foldl (fun m st =>
+    if !bitOf N st && !((regsL st).all fun r => (code st).leaves.all (checkA (bitOf N) st r))
+    then m ||| (1 <<< st.ctorIdx) else m) N
 
-def ntL : List St := iter (fun x y => x.length == y.length) ntStep St.all.length []
+def ntM : Nat := iter (fun x y => x == y) ntStep St.all.length 0
 
-def rqOfL (L : List (St × Nat)) (s : St) : Nat := (L.lookup s).getD 0
-
-/-- every abstractly executable leaf of every state satisfies `p` -/
+/-- every abstractly executable leaf of a state satisfies `p` -/
 def allLeaves (p : St → List (Op St) → Abs → Cont St → Bool) (st : St) : Bool :=
   (regsL st).all fun r => (code st).leaves.all fun leaf =>
     match absOps true (a0 r) leaf.1 with
     | none => true
     | some a => p st leaf.1 a leaf.2
 
-/-- the requirement of a state whose lower-bound check fails is raised by one; the common bound of the
+/-- C: the requirement of a state whose lower-bound check fails is raised by one; the common bound of the
 stack elements is raised by one when something pushed requires more -/
-def rqStep (X : List (St × Nat) × Nat) : List (St × Nat) × Nat :=
-  (X.1.map fun p => if allLeaves (lowC (rqOfL X.1) X.2) p.1 then p else (p.1, p.2 + 1),
-   if St.all.all (allLeaves fun _ _ a _ => pushC (rqOfL X.1) X.2 a) then X.2 else X.2 + 1)
+def rqStep (X : Nat × Nat) : Nat × Nat :=
+  (St.all.foldl (fun m st =>
+      if allLeaves (lowC (byteOf X.1) X.2) st then m else m + (1 <<< (8 * st.ctorIdx))) X.1,
+   if St.all.all (allLeaves fun _ _ a _ => pushC (byteOf X.1) X.2 a) then X.2 else X.2 + 1)
 
-def rqX : List (St × Nat) × Nat :=
-  iter (fun x y => x == y) rqStep 16 (St.all.map fun s => (s, 0), 0)
+def rqX : Nat × Nat :=
+  iter (fun x y => x.1 == y.1 && x.2 == y.2) rqStep 16 (0, 0)
 
 def oeOfL (L : List (St × Option Ev)) (s : St) : Option Ev := (L.lookup s).getD none
 
@@ -284,7 +290,7 @@ def oeDfs : Nat → List (St × Option Ev) → List (St × Option Ev) → List (
 def oeL : List (St × Option Ev) := oeDfs 4096 [(.stateRoot, none)] []
 
 /-- the certificate of the current table -/
-def cert : Cert := { nt := fun s => ntL.contains s, oe := oeOfL oeL, rq := rqOfL rqX.1, srq := rqX.2, regs := regsL }
+def cert : Cert := { nt := bitOf ntM, oe := oeOfL oeL, rq := byteOf rqX.1, srq := rqX.2, regs := regsL }
 
 def checkAll : Bool := checkInit cert && St.all.all fun st => checkCode cert st (code st)
 
